@@ -393,6 +393,12 @@ where
             let new_len = old_len + amount;
 
             // realloc
+            #[cfg(star_frame_verif)]
+            crate::verif_hooks::trace_raw(crate::verif_hooks::RawAccess::Realloc {
+                data: data_addr,
+                old_len,
+                new_len,
+            });
             unsafe {
                 UnsizedTypeDataAccess::unsized_data_realloc(top_meta.info, data_ptr, new_len)
             }?;
@@ -400,6 +406,12 @@ where
             if start_addr != data_addr + old_len {
                 let dst = start as usize + amount;
                 let src = start as usize;
+                #[cfg(star_frame_verif)]
+                crate::verif_hooks::trace_raw(crate::verif_hooks::RawAccess::Move {
+                    dst,
+                    src,
+                    len: old_len - (start_addr - data_addr),
+                });
                 // SAFETY:
                 // todo
                 unsafe {
@@ -522,6 +534,12 @@ where
             }
 
             if end as usize != data_addr + old_len {
+                #[cfg(star_frame_verif)]
+                crate::verif_hooks::trace_raw(crate::verif_hooks::RawAccess::Move {
+                    dst: start as usize,
+                    src: end as usize,
+                    len: old_len - (end as usize - data_addr),
+                });
                 unsafe {
                     sol_memmove(
                         data_ptr.with_addr(start as usize).cast(),
@@ -532,6 +550,12 @@ where
             }
 
             let new_len = old_len - amount;
+            #[cfg(star_frame_verif)]
+            crate::verif_hooks::trace_raw(crate::verif_hooks::RawAccess::Realloc {
+                data: data_addr,
+                old_len,
+                new_len,
+            });
             // SAFETY:
             // Data ptr is derived from the info.
             unsafe {
